@@ -21,6 +21,9 @@ def objective(params):
   return s
 
 
+FRESH_SEED_FREE = ('shuffled_grid', 'quasi_random', 'eagle')
+
+
 def run(tier, seed):
   from harness import boot
   boot.boot()
@@ -44,7 +47,7 @@ def run(tier, seed):
               'object per restart; suggestions (NSGA-II: population, phase, counter on the same trial history) must be identical; grid: every '
               'point exactly once per period; model correspondence for str/int, grid indexing, pool order, phase counter, CMA queue; '
               'non-trivial = at least one restart after state has changed')
-  rep.trusted = ['Coq 8.16.1 kernel + vm_compute', 'harness/translate/serial.py (Python-ast translator, fail-closed; the list of members mutated '
+  rep.trusted = ['harness/translate/gridstate.py (Python-ast translator of GridSearchDesigner.dump / load, fail-closed)', 'Coq 8.16.1 kernel + vm_compute', 'harness/translate/serial.py (Python-ast translator, fail-closed; the list of members mutated '
                  'through calls is hand-written there)', 'scipy Halton / numpy Generator / random.Random are deterministic functions of their '
                  'seed and position (checked by the differential runs, assumed in the model as a function)', 'equinox stand-in']
   broke = None
@@ -52,6 +55,11 @@ def run(tier, seed):
     C.write_gen('Gen/Serial.v', serial.translate(C.REPO))
   except Exception as e:  # pylint: disable=broad-except
     broke = 'translator harness/translate/serial.py refused the designer sources: %r' % (e,)
+  try:
+    from harness.translate import gridstate
+    C.write_gen('Gen/GridSrc.v', gridstate.translate(C.REPO))
+  except Exception as e:  # pylint: disable=broad-except
+    broke = ((broke or '') + ' translator harness/translate/gridstate.py refused designers/grid.py: %r' % (e,)).strip()
   C.standard_proof_step(rep, 'C13')
   broke = ((broke or '') + ' ' + (rep.proof_broken or '')).strip() or None
   concrete = False
@@ -67,7 +75,7 @@ def run(tier, seed):
     return {k: v.value for k, v in s.parameters.items()}
 
   # ---------------------------------------------------------------- designer level
-  def run_designer(factory, prob, steps, restart_at, order_seed, infeas_p, observe=None, history=None):
+  def run_designer(factory, prob, steps, restart_at, order_seed, infeas_p, observe=None, history=None, fresh=None):
     """Returns (suggestions per step, observations per step, trials fed per step).  history: feed these trials instead."""
     import random as _random
     d = factory(prob)
@@ -77,7 +85,7 @@ def run(tier, seed):
     for si, count in enumerate(steps):
       if si in restart_at:
         md = d.dump()
-        d = factory(prob)
+        d = (fresh or factory)(prob)
         d.load(md)
       if observe:
         obs.append(observe(d))
@@ -108,13 +116,21 @@ def run(tier, seed):
   for si in range(nspace):
     prob, meta = spaces.gen_space(r, vz)
     sd = r.randrange(10000)
-    facts = {
+    if si % 3 == 0:
+      sd = (si // 3) % 2     # the smallest seeds, 0 included
+    mkfacts = lambda sd: {
         'grid': lambda p: grid.GridSearchDesigner(p.search_space),
         'shuffled_grid': lambda p, sd=sd: grid.GridSearchDesigner(p.search_space, shuffle_seed=sd),
         'quasi_random': lambda p, sd=sd: quasi_random.QuasiRandomDesigner(p.search_space, seed=sd),
         'eagle': lambda p, sd=sd: eagle_strategy.EagleStrategyDesigner(p, seed=sd),
     }
+    facts = mkfacts(sd)
+    # the fresh instance a host builds before loading the state need not be built with the seed of the stored one (the
+    # hosted policies build it with no seed or a time-based one): the stored state decides
+    other_sd = r.choice([None, sd + 1, 12345])
+    fresh_facts = mkfacts(other_sd) if si % 2 == 0 else facts
     for name, f in facts.items():
+      fresh_f = fresh_facts[name] if name in FRESH_SEED_FREE else f
       n = r.choice([6, 12]) if name != 'eagle' else r.choice([10, 25])
       steps = [r.randrange(1, 5) for _ in range(n)]
       infeas = r.choice([0, 0, 0.25])
@@ -133,7 +149,8 @@ def run(tier, seed):
         rep.case({'designer': name, 'space': meta, 'steps': steps, 'restarts': sorted(rs), 'seed': sd}, True)
         rep.count('designer_' + name)
         try:
-          got, got_dumps, _, _ = run_designer(f, prob, steps, rs, oseed, infeas, observe=dump_of)
+          got, got_dumps, _, _ = run_designer(f, prob, steps, rs, oseed, infeas, observe=dump_of, fresh=fresh_f)
+          rep.count('fresh_instance_other_seed' if fresh_f is not f else 'fresh_instance_same_seed')
         except Exception as e:  # pylint: disable=broad-except
           viol('%s: the restarted run raised %s where the live run did not' % (name, type(e).__name__),
                {'designer': name, 'space': repr(prob.search_space)[:600], 'steps': steps, 'restarts': sorted(rs), 'seed': sd, 'error': repr(e)[:300]})
@@ -165,7 +182,9 @@ def run(tier, seed):
     def observe(d):
       pop = d.population
       return {'seen': int(d._num_trials_seen), 'sampling': bool(d._num_trials_seen < d._first_survival_after),
-              'pop': [np.asarray(getattr(pop, a)).tolist() for a in ('xs', 'ys', 'ages', 'generations', 'ids')]}
+              'pop': [np.asarray(getattr(pop, a)).tolist() for a in ('xs', 'ys', 'ages', 'generations', 'ids')],
+              # the counter that numbers new offspring (a counter of the designer's state, kept by its sampler)
+              'sampled': int(getattr(d._sampler, '_num_samples', -1))}
     try:
       live, lobs, fed, _ = run_designer(f, prob, steps, set(), 0, 0.0, observe=observe)
     except Exception as e:  # pylint: disable=broad-except
@@ -182,8 +201,18 @@ def run(tier, seed):
       evo_cases.append('(%s, %s, %s)' % (gN(fsa), glist(list(zip([i in rs for i in range(n)], [len(t) for t in fed])), lambda x: gpair(gbool(x[0]), gnat(x[1]))),
                                        glist(gobs, lambda o: gpair(gbool(o['sampling']), gN(o['seen'])))))
       evo_objs.append({'first_survival_after': fsa, 'steps': steps, 'restarts': sorted(rs)})
-      if json.dumps(gobs) != json.dumps(lobs):
-        first = [i for i in range(n) if json.dumps(gobs[i]) != json.dumps(lobs[i])][0]
+      strip_ = lambda obs_: [{k_: v_ for k_, v_ in o_.items() if k_ != 'sampled'} for o_ in obs_]
+      if [o_['sampled'] for o_ in gobs] != [o_['sampled'] for o_ in lobs] and json.dumps(strip_(gobs)) == json.dumps(strip_(lobs)):
+        kf_ = 'C13-nsga2-sampler-counter-not-restored'
+        known_ = {f_['id']: f_ for f_ in C.load_known() if f_['property'] == 'C13'}
+        if kf_ in known_:
+          rep.known(kf_, known_[kf_]['what'])
+        else:
+          viol('nsga2: after a restart the sampler\'s offspring counter differs from the instance kept alive',
+               {'steps': steps, 'restarts': sorted(rs), 'live': [o_['sampled'] for o_ in lobs], 'restarted': [o_['sampled'] for o_ in gobs]})
+      gobs, lobs_cmp = strip_(gobs), strip_(lobs)
+      if json.dumps(gobs) != json.dumps(lobs_cmp):
+        first = [i for i in range(n) if json.dumps(gobs[i]) != json.dumps(lobs_cmp[i])][0]
         viol('nsga2: after a restart the population / phase / counter differ from the instance kept alive',
              {'space': repr(prob.search_space)[:400], 'population_size': psize, 'first_survival_after': fsa, 'steps': steps, 'restarts': sorted(rs),
               'first_differing_step': first, 'live': {k: lobs[first][k] for k in ('seen', 'sampling')},
@@ -450,6 +479,32 @@ def run(tier, seed):
   rep.disagreements += len(bad)
   for i in bad[:3]:
     broke = (broke or '') + ' correspondence: queue / tell count of the model vs CMAESDesigner on %r;' % (cma_objs[i],)
+  # ---------------------------------------------------------------- restart in ANOTHER OS PROCESS (another PYTHONHASHSEED): the state
+  # of a shuffled grid search is (position, seed); the process that loads it must expand the seed into the same grid ordering,
+  # so that the two processes together hand out every grid point exactly once
+  import subprocess
+  import sys as _sys
+  for k_ in range(2 if quick else 8):
+    sd_ = [0, 7, 123, 99991][k_ % 4] if k_ < 4 else r.randrange(10**6)
+    total_, cut_ = 24, r.randrange(3, 20)
+    parts = []
+    for (hs_, idx_, cnt_) in (('11', 0, cut_), ('22', cut_, total_ - cut_)):
+      env_ = {'PATH': '/usr/local/bin:/usr/bin:/bin', 'HOME': '/root', 'PYTHONPATH': C.VERIF, 'PYTHONHASHSEED': hs_,
+              'VERIF_REPO': C.REPO, 'JAX_PLATFORMS': 'cpu', 'TF_CPP_MIN_LOG_LEVEL': '3', 'PYTHONWARNINGS': 'ignore', 'PYTHONDONTWRITEBYTECODE': '1'}
+      pr_ = subprocess.run([_sys.executable, '-m', 'harness.gridchild', str(sd_), str(idx_), str(cnt_)], env=env_, capture_output=True, text=True, timeout=300,
+                           cwd=C.VERIF)
+      line_ = [l_ for l_ in pr_.stdout.splitlines() if l_.startswith('GRIDCHILD ')]
+      if not line_:
+        raise RuntimeError('grid child failed: %s' % pr_.stderr[-400:])
+      parts.append(json.loads(line_[0][len('GRIDCHILD '):]))
+    pts_ = [json.dumps(p_, sort_keys=True) for part_ in parts for p_ in part_]
+    rep.case({'designer': 'shuffled_grid', 'stage': 'restart-in-another-process', 'seed': sd_, 'cut': cut_}, True)
+    rep.count('cross_process_restart')
+    if len(set(pts_)) != total_:
+      dup_ = sorted({p_ for p_ in pts_ if pts_.count(p_) > 1})
+      viol('shuffled grid search restarted in another OS process (another PYTHONHASHSEED) does not continue the same grid ordering: '
+           '%d of the %d grid points handed out, %d twice' % (len(set(pts_)), total_, len(dup_)),
+           {'shuffle_seed': sd_, 'first_process_made': cut_, 'second_process_made': total_ - cut_, 'repeated_points': dup_[:4]})
   C.settle_broken(rep, broke, concrete)
   return rep.finish()
 
